@@ -13,6 +13,7 @@ Overlay syntax (lines starting with `//@`):
        //@ loop <k> [iter=<name>]   invariant/decreases text placed in the header of loop k (source order)
        //@ loop_begin <k>      text placed at the first statement position of loop k's body
        //@ loop_end <k>        text placed after the last statement of loop k's body
+       //@ before <k>          text placed immediately before loop k's statement
        //@ after <k>           text placed immediately after loop k
        //@ exit                text placed after the body (body wrapped as `let r__ = { body }; <text> r__`)
        //@ closure <k>         replacement header for closure k (`|x: &T| -> (b: bool) ensures ..`); body gets `{ }`
@@ -79,13 +80,19 @@ class Edits:
 
     def render(self):
         """returns (text, offs) where offs[i] = source offset for char i, or None for inserted text"""
-        chars = list(self.text)
-        offs = list(self.offs0) if self.offs0 is not None else [self.base + i for i in range(len(chars))]
-        # apply from the end; for equal start: later-registered insert goes after earlier one => apply later first
-        for (s, e, new, order) in sorted(self.eds, key=lambda x: (x[0], x[3]), reverse=True):
-            chars[s:e] = list(new)
-            offs[s:e] = [None] * len(new)
-        return "".join(chars), offs
+        src = self.text
+        offs0 = list(self.offs0) if self.offs0 is not None else [self.base + i for i in range(len(src))]
+        out, offs = [], []
+        cur = 0
+        # left to right; at equal start, pure insertions come before a replacement, in registration order
+        for (s, e, new, order) in sorted(self.eds, key=lambda x: (x[0], 1 if x[1] > x[0] else 0, x[3])):
+            if s < cur:
+                raise ExtractError(f"rewrite inside a replaced range at {s}")
+            out.append(src[cur:s]); offs += offs0[cur:s]
+            out.append(new); offs += [None] * len(new)
+            cur = e
+        out.append(src[cur:]); offs += offs0[cur:]
+        return "".join(out), offs
 
 
 def _tokspan(toks, i, j):
@@ -530,8 +537,38 @@ def build_item(cur, log):
                     ed.insert(toks[last].end, ".iter()")
                 ed.insert(toks[lo_].end, f" let {v} = *{v}__r;")
                 log.append(("R1", where, text[toks[lk].start:toks[lo_].end]))
+    if "R2" in rules:
+        for n_, (lk, lo_, lc_) in enumerate(loops):
+            if toks[lk].text != "for": continue
+            a1 = next_code(toks, lk)
+            if toks[a1].text != "(": continue
+            a2 = match_forward(toks, a1)
+            a3 = next_code(toks, a2)
+            if toks[a3].text != "in": continue
+            last = prev_code(toks, lo_)
+            expr = text[toks[a3].end:toks[last].end].strip()
+            pat = [x for x in toks[a1 + 1:a2] if x.kind not in ("ws", "lc", "bc")]
+            names = [x.text for x in pat if x.text != ","]
+            kv = f"k__{n_}"
+            if any(x.kind == "ident" and x.text == "continue" for x in toks[lo_:lc_]):
+                raise ExtractError(f"unsupported-construct: {where}: `continue` inside a loop rewritten by R2")
+            if expr.endswith(".iter().enumerate()"):
+                base_e = expr[:-len(".iter().enumerate()")]
+                if len(names) == 2:
+                    lets = f" let {names[0]} = {kv}; let {names[1]} = &{base_e}[{kv}];"
+                elif len(names) == 3 and names[1] == "&":
+                    lets = f" let {names[0]} = {kv}; let {names[2]} = {base_e}[{kv}];"
+                else: continue
+            elif expr.endswith(".iter()") and len(names) == 2:
+                base_e = expr[:-len(".iter()")]
+                lets = f" let {names[0]} = &{base_e}[{kv}].0; let {names[1]} = &{base_e}[{kv}].1;"
+            else: continue
+            ed.replace(toks[lk].start, toks[last].end, f"let mut {kv}: usize = 0; while {kv} < {base_e}.len()")
+            ed.insert(toks[lo_].end, lets)
+            ed.insert(toks[lc_].start, f" {kv} += 1; ")
+            log.append(("R2", where, text[toks[lk].start:toks[lo_].end]))
     for x in secs:
-        if x.kind in ("loop", "loop_begin", "loop_end", "after"):
+        if x.kind in ("loop", "loop_begin", "loop_end", "after", "before"):
             kidx = int(x.arg)
             if kidx >= len(loops):
                 raise ExtractError(f"lost-anchor: {where}: loop {kidx} not found ({len(loops)} loops)")
@@ -549,6 +586,12 @@ def build_item(cur, log):
                         elif tq.kind == "ident" and tq.text == "in" and depth == 0: break
                         q += 1
                     ed.insert(toks[q].end, f" {x.opts['iter']}:")
+            elif x.kind == "before":
+                q = prev_code(toks, lk)
+                pos_ = toks[lk].start
+                if q is not None and toks[q].text == ":":  # labelled loop
+                    pos_ = toks[prev_code(toks, q)].start
+                ed.insert(pos_, "\n" + x.text + "\n")
             elif x.kind == "loop_begin":
                 ed.insert(toks[lo_].end, "\n" + x.text + "\n")
             elif x.kind == "loop_end":
